@@ -1082,11 +1082,11 @@ Qed.
 
 (** ** the monitor relation *)
 (** what the current step has done and the monitor has not seen yet (between the components of one step) *)
-Inductive pend := PNone | PAcc (t : tid) (c x : Z) | PBadDrop (c : Z).
+Inductive pend := PNone | PAcc (t : tid) (c x : Z) | PBadDrop (t : tid) (c : Z).
 Definition pendm (p : pend) (c : Z) : list Z :=
   match p with PAcc _ c' x => if c' =? c then [x] else [] | _ => [] end.
 Definition begun_of (p : pend) (m : m13) : list Z :=
-  match p with PBadDrop _ => tl (m13_cbegun m) | _ => m13_cbegun m end.
+  match p with PBadDrop _ _ => tl (m13_cbegun m) | _ => m13_cbegun m end.
 
 Record CRel (p : pend) (st : wstate) (m : m13) : Prop := {
   r_bad : m13_bad m = false;
@@ -1115,10 +1115,10 @@ Record CRel (p : pend) (st : wstate) (m : m13) : Prop := {
                      (forall b, ((exists m', In (IUnlock m' (URet (RBool b))) (tcont (thr st t))) \/ tret (thr st t) = RBool b) ->
                                 l = true -> b = true);
   r_dropcmd : forall t c, tcur (thr st t) = Some (CCDrop c) ->
-           (p = PBadDrop c /\ exists old, m13_cbegun m = c :: old) \/
-           (p <> PBadDrop c /\ memZ c (m13_cbegun m) = true /\ cexists (chs st c) = true /\
+           (p = PBadDrop t c /\ exists old, m13_cbegun m = c :: old) \/
+           (p <> PBadDrop t c /\ memZ c (begun_of p m) = true /\ cexists (chs st c) = true /\
             ((exists m', In (ILock m' (LChClose c)) (tcont (thr st t))) \/ copen (chs st c) = false));
-  r_pbad : forall c, p = PBadDrop c -> exists t, tcur (thr st t) = Some (CCDrop c);
+  r_pbad : forall t c, p = PBadDrop t c -> tcur (thr st t) = Some (CCDrop c) /\ tcont (thr st t) = [];
   r_ord : forall a1 t c x a2, m13_acc m = a1 ++ (t, (c, x)) :: a2 ->
           forall l l1 l2, m13_sends m = l1 ++ mkCS t c x l :: l2 ->
           forall e, In e l2 -> cs_tid e = t -> In (t, (cs_c e, cs_m e)) (m13_acc m) -> In (t, (cs_c e, cs_m e)) a2 }.
@@ -1177,11 +1177,11 @@ Section CFrame.
       + destruct (Huret u c m0 b Hu Hin) as [[m1 X]|X]; [apply (L3 b); [left; exists m1; exact X|exact Hl]|].
         destruct (L2 Hl) as [Y _]. rewrite Y in X. exact X.
       + destruct (Hrc u c b Hu Hr) as [X|[m0 X]]; apply (L3 b); auto. left. exists m0. exact X.
-    - intros u c. rewrite Hcur, M4, Hex. intro Hu.
+    - intros u c. rewrite Hcur, Hex. cbn [begun_of]. rewrite M4. intro Hu.
       destruct (r_dropcmd _ st m R u c Hu) as [[D _]|[D1 [D2 [D3 D4]]]]; [discriminate D|]. right.
-      split; [exact D1|]. split; [exact D2|]. split; [exact D3|].
+      split; [discriminate|]. split; [exact D2|]. split; [exact D3|].
       destruct D4 as [[m0 D4]|D4]; [apply (Hclose u m0 c Hu D4)|right; apply Hcl; exact D4].
-    - intros c H. discriminate H.
+    - intros u c H. discriminate H.
     - rewrite M1, M2. apply (r_ord _ st m R).
   Qed.
 End CFrame.
@@ -1609,7 +1609,7 @@ Proof.
   - intros u c1. rewrite Hcur. destruct (Fl c1) as [A B]. rewrite A, B. intro Hu1.
     assert (Nu : u <> t) by (intro E; subst u; congruence). rewrite (Hoth u Nu).
     destruct (r_dropcmd _ st ms R u c1 Hu1) as [[D _]|[_ D]]; [discriminate D|]. right. split; [discriminate|exact D].
-  - intros c1 E. discriminate E.
+  - intros u c1 E. discriminate E.
   - apply (r_ord _ st ms R).
 Qed.
 
@@ -1766,3 +1766,254 @@ Proof.
       * destruct term; [destruct He as [<-|[]]; exact Logic.I|destruct He].
     + intros c1 m1 b1 Hu1 [].
 Qed.
+
+(** a state change outside of what the relation reads *)
+Lemma cr_steq : forall p st st' m,
+  chs st' = chs st ->
+  (forall u, tcur (thr st' u) = tcur (thr st u) /\ tret (thr st' u) = tret (thr st u) /\ tcont (thr st' u) = tcont (thr st u)) ->
+  CRel p st m -> CRel p st' m.
+Proof.
+  intros p st st' m Hch Hf R.
+  assert (Cu : forall u, tcur (thr st' u) = tcur (thr st u)) by (intro u; apply Hf).
+  assert (Re : forall u, tret (thr st' u) = tret (thr st u)) by (intro u; apply Hf).
+  assert (Co : forall u, tcont (thr st' u) = tcont (thr st u)) by (intro u; apply Hf).
+  assert (Tr : forall c, transit st' c = transit st c) by (intro c; unfold transit; rewrite Co; reflexivity).
+  constructor; intros; rewrite ?Hch, ?Tr, ?Cu, ?Re, ?Co in *.
+  - apply (r_bad p st m R).
+  - apply (r_open p st m R); auto.
+  - apply (r_done p st m R); auto.
+  - apply (r_begun p st m R); auto.
+  - eapply (r_ex_acc p st m R); eauto.
+  - eapply (r_ex_fwd p st m R); eauto.
+  - eapply (r_acc_sent p st m R); eauto.
+  - apply (r_acc_nd p st m R).
+  - eapply (r_late_dom p st m R); eauto.
+  - apply (r_late_nd p st m R).
+  - eapply (r_send p st m R); eauto.
+  - eapply (r_pacc p st m R); eauto.
+  - eapply (r_closedcmd p st m R); eauto.
+  - eapply (r_dropcmd p st m R); eauto.
+  - eapply (r_pbad p st m R); eauto.
+  - eapply (r_ord p st m R); eauto.
+Qed.
+
+Lemma not_closed_head : forall st t i r, ShInv st -> tcont (thr st t) = i :: r ->
+  (forall m a, i <> ILock m a) -> (forall m a, i <> IUnlock m a) -> forall c, tcur (thr st t) <> Some (CClosed c).
+Proof.
+  intros st t i r S Hc H1 H2 c Hu. destruct (sh_closed st S t c Hu) as [[_ [E|[E|[b E]]]]|[E _]]; rewrite Hc in E; try discriminate E.
+  - inversion E. eapply H1; eauto.
+  - inversion E. eapply H2; eauto.
+Qed.
+
+Lemma exec_instr_C : forall st ms t i r st' ev,
+  ShInv st -> ChInv st -> CRel PNone st ms -> NoDup (map sk (m13_sends ms)) ->
+  tcont (thr st t) = i :: r -> exec_instr st t i r = (st', ev) ->
+  exists p', CRel p' st' (fold_left m13_step (evs t ev) ms) /\ (p' = PNone \/ exists c x, p' = PAcc t c x).
+Proof.
+  intros st ms t i r st' ev S C R Nd Hc H.
+  destruct i; cbn [exec_instr] in H.
+  - (* climb *)
+    pose proof (not_closed_head st t _ r S Hc ltac:(intros; discriminate) ltac:(intros; discriminate)) as Hcc'.
+    exists PNone. split; [|auto].
+    destruct k; cbn [exec_climb] in H; inversion H; subst; clear H.
+    + destruct (bitmap_join a b (bmbase st bm)) as [x|]; [destruct (slab_get (sl st) x)|];
+        (destruct (leaf st bm a =? 0);
+         [crt st t (IClimb (KLeaf bm a b who)) r [IClimb (KSum bm a)]|crt st t (IClimb (KLeaf bm a b who)) r (@nil instr)]).
+    + destruct (summ st bm =? 0); [crt st t (IClimb (KSum bm a)) r [IClimb (KTop bm)]|crt st t (IClimb (KSum bm a)) r (@nil instr)].
+    + destruct (top st =? 0); [crt st t (IClimb (KTop bm)) r [IClimb KCb]|crt st t (IClimb (KTop bm)) r (@nil instr)].
+    + crt st t (IClimb KCb) r (@nil instr).
+  - pose proof (not_closed_head st t _ r S Hc ltac:(intros; discriminate) ltac:(intros; discriminate)) as Hcc'.
+    exists PNone. split; [|auto]. inversion H; subst; clear H.
+    crt st t ITopSwap r [IBms (flat_map (bms_of_slot st) (bits_of (top st)))].
+  - pose proof (not_closed_head st t _ r S Hc ltac:(intros; discriminate) ltac:(intros; discriminate)) as Hcc'.
+    exists PNone. split; [|auto].
+    destruct bms; inversion H; subst; clear H; [eapply cr_msame; [exact R|apply m13_plain_fold; cr_pl]|].
+    crt st t (IBms (z :: bms)) r [ILeaves z (bits_of (summ st z)); IBms bms].
+  - pose proof (not_closed_head st t _ r S Hc ltac:(intros; discriminate) ltac:(intros; discriminate)) as Hcc'.
+    exists PNone. split; [|auto].
+    destruct ls; [inversion H; subst; eapply cr_msame; [exact R|apply m13_plain_fold; cr_pl]|].
+    destruct (collect (bmbase st bm) z (leaf st bm z)) as [bits ok].
+    match type of H with context [ghost_collect ?S0 bits] =>
+      destruct (ghost_collect_sl bits S0) as [_ [_ [_ [_ [_ [A6 [_ A8]]]]]]]; remember (ghost_collect S0 bits) as s3 eqn:Es3 end.
+    cbn zeta in *. inversion H; subst st' ev; clear H.
+    match goal with |- CRel _ ?S' _ => set (st' := S') end.
+    assert (Hth : forall u, tcont (thr st' u) = (if Nat.eqb u t then [ILeaves bm ls] ++ r else tcont (thr st u)) /\
+                            tcur (thr st' u) = tcur (thr st u) /\ tret (thr st' u) = tret (thr st u)).
+    { intro u. unfold st'. cbn -[Nat.eqb]. unfold updN, th. rewrite A8. cbn -[Nat.eqb]. unfold updN, th.
+      destruct (Nat.eqb_spec u t); subst; rewrite ?Nat.eqb_refl; cbn; repeat split; reflexivity. }
+    apply (cr_triv st st' _ t (ILeaves bm (z :: ls)) r [ILeaves bm ls]); auto.
+    + intro u. apply Hth.
+    + intro u. apply Hth.
+    + intros u Hu. destruct (Hth u) as [A _]. rewrite A. destruct (Nat.eqb_spec u t); [congruence|reflexivity].
+    + destruct (Hth t) as [A _]. rewrite A, Nat.eqb_refl. reflexivity.
+    + intro c0. unfold st'. cbn. rewrite A6. cbn. repeat split; reflexivity.
+    + destruct ok; cr_pl.
+    + intros; discriminate.
+    + cr_new.
+    + intros c1 m1 b1 Hu1 _. exfalso. exact (Hcc' _ Hu1).
+  - exists PNone. split; [|auto]. inversion H; subst. eapply cr_msame; [exact R|apply m13_plain_fold; cr_pl].
+  - exists PNone. split; [|auto]. inversion H; subst. eapply cr_msame; [exact R|apply m13_plain_fold; cr_pl].
+  - exists PNone. split; [|auto]. inversion H; subst. eapply cr_msame; [exact R|apply m13_plain_fold; cr_pl].
+  - (* lock *)
+    match type of H with context [exec_lact ?S0 t ?aa ?rr] => destruct (exec_lact S0 t aa rr) as [s2 e2] eqn:E; set (s1 := S0) in * end.
+    inversion H; subst; clear H. exists PNone. split; [|auto].
+    change (evs t (ELock m :: e2)) with ((t, ELock m) :: evs t e2). cbn [fold_left].
+    assert (S1 : ShInv s1) by (unfold s1; sh_eq st).
+    assert (R1 : CRel PNone s1 (m13_step ms (t, ELock m))).
+    { apply (cr_msame _ _ ms); [|apply m13_plain_step; exact Logic.I]. apply (cr_steq _ st); auto. intro u. unfold s1. repeat split; thr_simpl. }
+    apply (exec_lact_C s1 _ t m a r st' e2 S1 R1); [unfold s1; thr_simpl|exact E].
+  - (* unlock *)
+    destruct (exec_uact st t a r) as [s1 e1] eqn:E. inversion H; subst; clear H.
+    change (evs t (EUnlock m :: e1)) with ((t, EUnlock m) :: evs t e1). cbn [fold_left].
+    assert (R0 : CRel PNone st (m13_step ms (t, EUnlock m))) by (apply (cr_msame _ _ ms); [exact R|apply m13_plain_step; exact Logic.I]).
+    destruct (exec_uact_C st _ t m a r s1 e1 S C R0 Hc) as [p' [R1 Hp]]; [exact Nd|exact E|].
+    exists p'. split; [|exact Hp]. apply (cr_steq _ s1); auto.
+  - pose proof (not_closed_head st t _ r S Hc ltac:(intros; discriminate) ltac:(intros; discriminate)) as Hcc'.
+    exists PNone. split; [|auto]. inversion H; subst; clear H. crt st t (ICvWait p) r (@nil instr).
+  - match type of H with context [exec_lact ?S0 t ?aa ?rr] => destruct (exec_lact S0 t aa rr) as [s2 e2] eqn:E; set (s1 := S0) in * end.
+    inversion H; subst; clear H. exists PNone. split; [|auto].
+    change (evs t (ECvWake p :: e2)) with ((t, ECvWake p) :: evs t e2). cbn [fold_left].
+    assert (S1 : ShInv s1) by (unfold s1; sh_eq st).
+    assert (R1 : CRel PNone s1 (m13_step ms (t, ECvWake p))).
+    { apply (cr_msame _ _ ms); [|apply m13_plain_step; exact Logic.I]. apply (cr_steq _ st); auto. intro u. unfold s1. repeat split; thr_simpl. }
+    assert (Hc1 : tcont (thr s1 t) = ICvReacq p :: r) by (unfold s1; thr_simpl; exact Hc).
+    pose proof (not_closed_head s1 t _ r S1 Hc1 ltac:(intros; discriminate) ltac:(intros; discriminate)) as Hcc'.
+    clear - R1 Hc1 E Hcc'. cbn [exec_lact] in E. destr_all E; inversion E; subst; clear E.
+    + crt s1 t (ICvReacq p) r [IUnlock (MPq p) (URet RNoneV)].
+    + crt s1 t (ICvReacq p) r [ICvWait p; ICvReacq p].
+    + crt s1 t (ICvReacq p) r [IUnlock (MPq p) (URet (RVal z))].
+  - pose proof (not_closed_head st t _ r S Hc ltac:(intros; discriminate) ltac:(intros; discriminate)) as Hcc'.
+    exists PNone. split; [|auto].
+    inversion H; subst st' ev; clear H.
+    match goal with |- CRel _ (set_cont (fold_left ?f ?us st) t r) _ =>
+      destruct (notify_fold_fields us st) as [_ B]; pose proof (notify_fold_chs us st) as Bc;
+      assert (D : forall u, tret (thr (fold_left f us st) u) = tret (thr st u));
+      [clear; generalize us; intro us0; revert st; induction us0 as [|v us0 IH]; intro st; [intro; reflexivity|];
+       cbn [fold_left]; intro u; rewrite IH; cbn; unfold updN, th; destruct (Nat.eqb_spec u v); subst; reflexivity|];
+      set (s1 := fold_left f us st) in * end.
+    cbn zeta in *.
+    assert (R1 : CRel PNone s1 ms).
+    { apply (cr_steq _ st); auto. intro u. destruct (B u) as [X1 [_ [_ [_ [_ X6]]]]]. repeat split; auto. }
+    assert (Hc1 : tcont (thr s1 t) = INotify p :: r) by (destruct (B t) as [_ [_ [_ [_ [_ X6]]]]]; rewrite X6; exact Hc).
+    assert (Hcc1 : forall c, tcur (thr s1 t) <> Some (CClosed c)) by (intro c; destruct (B t) as [X1 _]; rewrite X1; apply Hcc').
+    clear Hcc'. crt s1 t (INotify p) r (@nil instr).
+  - pose proof (not_closed_head st t _ r S Hc ltac:(intros; discriminate) ltac:(intros; discriminate)) as Hcc'.
+    exists PNone. split; [|auto]. unfold ghost_handler in H. inversion H; subst; clear H.
+    destruct del; [crt st t (IYieldH h true) r (@nil instr)|crt st t (IYieldH h false) r (@nil instr)].
+  - pose proof (not_closed_head st t _ r S Hc ltac:(intros; discriminate) ltac:(intros; discriminate)) as Hcc'.
+    exists PNone. split; [|auto]. inversion H; subst; clear H. crt st t IJoin r (@nil instr).
+  - pose proof (not_closed_head st t _ r S Hc ltac:(intros; discriminate) ltac:(intros; discriminate)) as Hcc'.
+    exists PNone. split; [|auto]. inversion H; subst; clear H. crt st t IIdle r (@nil instr).
+Qed.
+
+(** ** the start of a command: the monitor sees [ECmd c] *)
+Lemma nodup_key_eq : forall l e e', NoDup (map sk l) -> In e l -> In e' l -> sk e = sk e' -> e = e'.
+Proof.
+  induction l as [|a l IH]; intros e e' Hn He He' Hk; [destruct He|]. cbn in Hn. inversion Hn as [|? ? Hni Hn']; subst.
+  destruct He as [->|He], He' as [->|He']; auto.
+  - exfalso. apply Hni. rewrite Hk. apply in_map. exact He'.
+  - exfalso. apply Hni. rewrite <- Hk. apply in_map. exact He.
+Qed.
+
+Lemma get_tid_app_other : forall A u (ex l : list (tid * A)), (forall e, In e ex -> fst e <> u) -> get_tid u (ex ++ l) = get_tid u l.
+Proof.
+  induction ex as [|[v x] ex IH]; intros l H; [reflexivity|]. cbn. destruct (Nat.eqb_spec v u) as [E|E].
+  - exfalso. apply (H (v, x)); [left; reflexivity|exact E].
+  - apply IH. intros e He. apply H. right. exact He.
+Qed.
+
+Section CInstall.
+  Variables (s0 s1 : wstate) (m m' : m13) (t : tid) (c : cmd) (p' : pend).
+  Variables (ex_s : list csend) (ex_l : list (tid * bool)).
+  Hypothesis R : CRel PNone s0 m.
+  Hypothesis Hcur0 : tcur (thr s0 t) = None.
+  Hypothesis Ho : forall u, u <> t -> thr s1 u = thr s0 u.
+  Hypothesis Ht : tcur (thr s1 t) = Some c /\ tret (thr s1 t) = RUnit /\ tcont (thr s1 t) = tcont (thr s0 t).
+  Hypothesis Hch : chs s1 = chs s0.
+  Hypothesis M1 : m13_sends m' = ex_s ++ m13_sends m.
+  Hypothesis M2 : m13_acc m' = m13_acc m.
+  Hypothesis M3 : m13_fwd m' = m13_fwd m.
+  Hypothesis M5 : m13_cdone m' = m13_cdone m.
+  Hypothesis M6 : m13_late m' = ex_l ++ m13_late m.
+  Hypothesis M7 : m13_bad m' = m13_bad m.
+  Hypothesis Hbg : begun_of p' m' = m13_cbegun m.
+  Hypothesis Hexs : forall s, In s ex_s -> cs_tid s = t.
+  Hypothesis Hexl : forall e, In e ex_l -> fst e = t.
+  Hypothesis Nd : NoDup (map sk (m13_sends m')).
+  Hypothesis Hp : p' = PNone \/ exists c0, p' = PBadDrop t c0.
+  (* the clauses about the new command of [t] *)
+  Hypothesis Hlate : forall l, get_tid t (m13_late m') = Some l ->
+                     exists c0, (exists x, c = CSend c0 x) \/ c = CClosed c0.
+  Hypothesis Hlnd : NoDup (map fst (m13_late m')).
+  Hypothesis Hsend : forall c0 x, c = CSend c0 x ->
+     exists l, ex_s = [mkCS t c0 x l] /\ get_tid t (m13_late m') = Some l /\
+               (l = true -> copen (chs s0 c0) = false /\ cexists (chs s0 c0) = true).
+  Hypothesis Hclosed : forall c0, c = CClosed c0 ->
+     exists l, get_tid t (m13_late m') = Some l /\ (l = true -> copen (chs s0 c0) = false /\ cexists (chs s0 c0) = true).
+  Hypothesis Hdrop : forall c0, c = CCDrop c0 -> p' = PBadDrop t c0 /\ exists old, m13_cbegun m' = c0 :: old.
+  Hypothesis Hnodrop : forall c0, p' = PBadDrop t c0 -> c = CCDrop c0.
+  Hypothesis Hk : tcont (thr s0 t) = [].
+
+  Lemma cr_install_gen : CRel p' s1 m'.
+  Proof.
+    assert (Cu : forall u, u <> t -> tcur (thr s1 u) = tcur (thr s0 u)) by (intros u Hu; rewrite (Ho u Hu); reflexivity).
+    assert (Tr : forall c0, transit s1 c0 = transit s0 c0).
+    { intro c0. unfold transit. destruct (Nat.eq_dec main t) as [E|E]; [rewrite E; destruct Ht as [_ [_ K]]; rewrite K; reflexivity|rewrite (Ho main E); reflexivity]. }
+    assert (Ac : forall c0, accs m' c0 = accs m c0) by (intro c0; unfold accs; rewrite M2; reflexivity).
+    assert (Fc : forall c0, fwds m' c0 = fwds m c0) by (intro c0; unfold fwds; rewrite M3; reflexivity).
+    assert (Pm : forall c0, pendm p' c0 = []) by (intro c0; destruct Hp as [->|[c1 ->]]; reflexivity).
+    assert (Glate : forall u, u <> t -> get_tid u (m13_late m') = get_tid u (m13_late m)).
+    { intros u Hu. rewrite M6. apply get_tid_app_other. intros e He. rewrite (Hexl e He). auto. }
+    assert (NotAcc : forall c0 x, c = CSend c0 x -> ~ In (t, (c0, x)) (m13_acc m)).
+    { intros c0 x Ec Hin. destruct (Hsend c0 x Ec) as [l [Es _]]. destruct (r_acc_sent _ s0 m R t c0 x Hin) as [l' Hl'].
+      rewrite M1, Es in Nd. cbn in Nd. inversion Nd as [|? ? Hni _]. apply Hni. change (sk (mkCS t c0 x l)) with (sk (mkCS t c0 x l')). apply in_map. exact Hl'. }
+    constructor.
+    - rewrite M7. apply (r_bad _ s0 m R).
+    - intros c0. rewrite Hch, Ac, Fc, Tr, Pm. intro Ho0. pose proof (r_open _ s0 m R c0 Ho0) as E. cbn [pendm] in E. exact E.
+    - intros c0. rewrite M5, Hch. apply (r_done _ s0 m R).
+    - intros c0. rewrite Hch, Hbg. apply (r_begun _ s0 m R).
+    - intros u c0 x. rewrite M2, Hch. apply (r_ex_acc _ s0 m R).
+    - intros c0 x. rewrite M3, Hch. apply (r_ex_fwd _ s0 m R).
+    - intros u c0 x. rewrite M2, M1. intro H. destruct (r_acc_sent _ s0 m R u c0 x H) as [l Hl]. exists l. apply in_or_app. auto.
+    - rewrite M2. apply (r_acc_nd _ s0 m R).
+    - intros u l Hl. destruct (Nat.eq_dec u t) as [->|Hu].
+      + destruct (Hlate l Hl) as [c0 [[x E]|E]]; exists c0; destruct Ht as [K _]; rewrite K, E; eauto.
+      + rewrite (Glate u Hu) in Hl. destruct (r_late_dom _ s0 m R u l Hl) as [c0 X]. exists c0. rewrite (Cu u Hu). exact X.
+    - exact Hlnd.
+    - intros u c0 x Hu. rewrite Hch, M2. destruct (Nat.eq_dec u t) as [->|Nu].
+      + destruct Ht as [K [K2 _]]. rewrite K in Hu. inversion Hu as [Ec].
+        destruct (Hsend c0 x Ec) as [l [Es [El Ed]]]. split; [|split; [apply NotAcc; exact Ec|rewrite K2; discriminate]].
+        exists l, [], (m13_sends m). rewrite M1, Es. split; [reflexivity|]. split; [intros s []|]. split; [exact El|exact Ed].
+      + rewrite (Cu u Nu) in Hu. rewrite (Ho u Nu). destruct (r_send _ s0 m R u c0 x Hu) as [[l [l1 [l2 [S1 [S2 [S3 S4]]]]]] [S5 S6]].
+        split; [|split; [exact S5|]].
+        * exists l, (ex_s ++ l1), l2. rewrite M1, S1, app_assoc. split; [reflexivity|]. split; [|split; [rewrite (Glate u Nu); exact S3|exact S4]].
+          intros s Hs. apply in_app_or in Hs. destruct Hs as [Hs|Hs]; [rewrite (Hexs s Hs); auto|apply S2; exact Hs].
+        * intro Hr. specialize (S6 Hr). discriminate S6.
+    - intros u c0 x E. destruct Hp as [->|[c1 ->]]; discriminate E.
+    - intros u c0 Hu. rewrite Hch. destruct (Nat.eq_dec u t) as [->|Nu].
+      + destruct Ht as [K [K2 K3]]. rewrite K in Hu. inversion Hu as [Ec].
+        destruct (Hclosed c0 Ec) as [l [El Ed]]. exists l. split; [exact El|]. split; [exact Ed|].
+        intros b [[m0 Hin]|Hr]; [rewrite K3, Hk in Hin; destruct Hin|rewrite K2 in Hr; discriminate Hr].
+      + rewrite (Cu u Nu) in Hu. rewrite (Ho u Nu), (Glate u Nu). apply (r_closedcmd _ s0 m R u c0 Hu).
+    - intros u c0 Hu. rewrite Hch, Hbg. destruct (Nat.eq_dec u t) as [->|Nu].
+      + destruct Ht as [K _]. rewrite K in Hu. inversion Hu as [Ec]. left. apply Hdrop. exact Ec.
+      + rewrite (Cu u Nu) in Hu. rewrite (Ho u Nu). destruct (r_dropcmd _ s0 m R u c0 Hu) as [[D _]|[_ [D2 D3]]]; [discriminate D|].
+        right. split; [|split; [exact D2|exact D3]]. destruct Hp as [->|[c1 ->]]; [discriminate|]. intro E. inversion E. congruence.
+    - intros u c0 E. destruct Hp as [->|[c1 ->]]; [discriminate E|]. inversion E; subst u c1.
+      destruct Ht as [K [_ K3]]. rewrite K, K3, (Hnodrop c0 eq_refl). auto.
+    - intros a1 u c0 x a2. rewrite M2, M1. intros Ea l l1 l2 El e He Et Hin.
+      (* where is the entry of the accepted send (u, c0, x)? not among the fresh entries *)
+      assert (Hacc : In (u, (c0, x)) (m13_acc m)) by (rewrite Ea; apply in_or_app; right; left; reflexivity).
+      destruct (r_acc_sent _ s0 m R u c0 x Hacc) as [lo Hlo].
+      assert (Hnew : In (mkCS u c0 x l) (m13_sends m')) by (rewrite M1, El; apply in_or_app; right; left; reflexivity).
+      assert (Hold : In (mkCS u c0 x lo) (m13_sends m')) by (rewrite M1; apply in_or_app; right; exact Hlo).
+      pose proof (nodup_key_eq _ _ _ Nd Hnew Hold eq_refl) as Ee. inversion Ee; subst lo.
+      apply in_split in Hlo. destruct Hlo as [k1 [k2 Ek]].
+      assert (Esplit : l1 = ex_s ++ k1 /\ l2 = k2).
+      { assert (E2 : l1 ++ mkCS u c0 x l :: l2 = (ex_s ++ k1) ++ mkCS u c0 x l :: k2) by (rewrite <- El, Ek, app_assoc; reflexivity).
+        assert (Nd2 : NoDup (l1 ++ mkCS u c0 x l :: l2)) by (rewrite <- El; rewrite <- M1; eapply NoDup_map_inv; exact Nd).
+        apply (nodup_split_unique _ _ _ _ _ _ Nd2 E2). }
+      destruct Esplit as [_ ->].
+      apply (r_ord _ s0 m R a1 u c0 x a2 Ea l k1 k2 Ek e He Et Hin).
+  Qed.
+End CInstall.
